@@ -196,13 +196,11 @@ theorem responds_acyclic (s : SchemaD) (doc : Doc) (vars : Vars) (w : World) (hu
     (ha : fragsAcyclic doc = true) (op : Option String) : ∃ r, RespondsWith s doc vars w op r :=
   responds_certified s doc vars w (acyclic_rankedB doc hu ha) op
 
-/-- the executor model refines the specification on every document without fragment cycles whose directive conditions can
-    be evaluated -/
+/-- the executor model refines the specification on every document without fragment cycles -/
 theorem exec_refines_spec_acyclic (s : SchemaD) (doc : Doc) (vars : Vars) (w : World) (hu : (doc.frags.map (·.name)).Nodup)
-    (ha : fragsAcyclic doc = true) (hd : PyGql.Lemmas.C04Dirs.docEvalB doc vars = true) (cf fuel : Nat) (root : String) (path : Path)
-    (sels : List Sel) (hse : PyGql.Lemmas.C04Dirs.selsEval vars sels = true) :
+    (ha : fragsAcyclic doc = true) (cf fuel : Nat) (root : String) (path : Path) (sels : List Sel) :
     ExecRefinesSpecUpToLocations s doc vars w cf fuel root path sels :=
-  exec_refines_spec_certified s doc vars w (acyclic_rankedB doc hu ha) hd cf fuel root path sels hse
+  exec_refines_spec_certified s doc vars w (acyclic_rankedB doc hu ha) cf fuel root path sels
 
 /-- without unique names the implication is FALSE: the second definition of `A` is the one the fragment table returns -/
 theorem acyclic_needs_unique_names :
